@@ -118,3 +118,13 @@ Theorem C10_two_calls : forall c1 c2 script tr1 v1,
      = (let '(tr2, o2) := run_script (cop_prog c2) (skipn (length tr1) script) in (tr1 ++ tr2, o2)).
 Proof. exact run_cops_two. Qed.
 Print Assumptions C10_two_calls.
+
+(* The same for sequences of any length: the i-th call of a sequence is that call's own program run on a suffix of the
+   script (what the earlier calls left).  Every statement proved of a single call for EVERY script -- the protocol automaton
+   above, the transfer shape of C09, the four invariants of C11 -- therefore holds of each call of any sequence of calls. *)
+Theorem C10_each_call_of_a_sequence : forall cs script i c r,
+  nth_error cs i = Some c ->
+  nth_error (run_cops_script cs script) i = Some r ->
+  exists k, (k <= length script)%nat /\ run_script (cop_prog c) (skipn k script) = r.
+Proof. exact run_cops_script_each. Qed.
+Print Assumptions C10_each_call_of_a_sequence.
